@@ -637,7 +637,7 @@ impl Gen {
                 let code = self.rng.below(16) as u32;
                 let mut p = last.to_be_bytes().to_vec();
                 p.extend_from_slice(&code.to_be_bytes());
-                let n = self.rng.range(0, 30) as usize;
+                let n = if self.rng.chance(1, 3) { 0 } else { self.rng.range(0, 30) as usize };
                 p.extend_from_slice(&self.rng.bytes(n));
                 (vec![wire_frame(7, self.rng.byte(), 0, rsv, &p)], "goaway")
             }
